@@ -18,6 +18,27 @@ pub fn any_text<const PRE: usize, const N: usize, const B: usize, const A: usize
     w: [u8; N],
     alpha: [u8; A],
 ) -> ([u8; B], [usize; 24]) {
+    any_text_mb::<PRE, N, B, A>(pre, w, alpha, MB_PLAIN)
+}
+
+/// The fixed multi-byte characters of an instance family: (a 2-byte, a 3-byte character).  Chosen per
+/// scanner as the non-ASCII *class-mates* of what the scanner tests for -- a Unicode digit for
+/// parse_int, non-ASCII white space / line separators for the layout and line scanners, a
+/// fullwidth colon for the colon scanner -- so that "is it a digit / blank / line end" shortcuts
+/// that are right for ASCII and wrong for Unicode are within the instance space.
+pub type Mb = ([u8; 2], [u8; 3]);
+pub const MB_PLAIN: Mb = ([0xC3, 0xA9], [0xE2, 0x82, 0xAC]); // e-acute, euro sign
+pub const MB_DIGIT: Mb = ([0xD9, 0xA3], [0xEF, 0xBC, 0x91]); // ARABIC-INDIC DIGIT THREE, FULLWIDTH DIGIT ONE
+pub const MB_SPACE: Mb = ([0xC2, 0xA0], [0xE2, 0x80, 0xA8]); // NO-BREAK SPACE, LINE SEPARATOR
+pub const MB_LINE: Mb = ([0xC2, 0x85], [0xE2, 0x80, 0xA9]); // NEXT LINE, PARAGRAPH SEPARATOR
+pub const MB_COLON: Mb = ([0xC3, 0xA9], [0xEF, 0xBC, 0x9A]); // e-acute, FULLWIDTH COLON
+
+pub fn any_text_mb<const PRE: usize, const N: usize, const B: usize, const A: usize>(
+    pre: [u8; PRE],
+    w: [u8; N],
+    alpha: [u8; A],
+    mb: Mb,
+) -> ([u8; B], [usize; 24]) {
     let mut buf = [0u8; B];
     let mut bounds = [0usize; 24];
     let mut len = 0usize;
@@ -39,14 +60,14 @@ pub fn any_text<const PRE: usize, const N: usize, const B: usize, const A: usize
                 len += 1;
             }
             2 => {
-                buf[len] = 0xC3;
-                buf[len + 1] = 0xA9;
+                buf[len] = mb.0[0];
+                buf[len + 1] = mb.0[1];
                 len += 2;
             }
             _ => {
-                buf[len] = 0xE2;
-                buf[len + 1] = 0x82;
-                buf[len + 2] = 0xAC;
+                buf[len] = mb.1[0];
+                buf[len + 1] = mb.1[1];
+                buf[len + 2] = mb.1[2];
                 len += 3;
             }
         }
@@ -154,7 +175,7 @@ macro_rules! c12_ws {
         #[kani::unwind($unwind)]
         #[kani::stub(std::hash::RandomState::new, fixed_rs)]
         pub fn $name() {
-            let (buf, bounds) = any_text::<{ $npre }, { $n }, { $b }, { $na }>($pre, $w, $alpha);
+            let (buf, bounds) = any_text_mb::<{ $npre }, { $n }, { $b }, { $na }>($pre, $w, $alpha, MB_SPACE);
             let s = unsafe { std::str::from_utf8_unchecked(&buf[..]) };
             let i = if $fixed_start {
                 0
@@ -179,7 +200,7 @@ macro_rules! c10_ws {
         #[kani::unwind($unwind)]
         #[kani::stub(std::hash::RandomState::new, fixed_rs)]
         pub fn $name() {
-            let (buf, bounds) = any_text::<{ $npre }, { $n }, { $b }, { $na }>($pre, $w, $alpha);
+            let (buf, bounds) = any_text_mb::<{ $npre }, { $n }, { $b }, { $na }>($pre, $w, $alpha, MB_SPACE);
             let s = unsafe { std::str::from_utf8_unchecked(&buf[..]) };
             let i = if $fixed_start {
                 0
@@ -216,12 +237,12 @@ macro_rules! c10_ws {
 /// A scanner taking (src, i) with a precondition on the character at i given by `$first`
 /// (0 = none): totality (C12).
 macro_rules! c12_scan {
-    ($name:ident, $f:path, $pre:expr, $npre:expr, $w:expr, $n:expr, $b:expr, $alpha:expr, $na:expr, $fixed_start:expr, $unwind:expr) => {
+    ($name:ident, $f:path, $pre:expr, $npre:expr, $w:expr, $n:expr, $b:expr, $alpha:expr, $na:expr, $mb:expr, $fixed_start:expr, $unwind:expr) => {
         #[kani::proof]
         #[kani::unwind($unwind)]
         #[kani::stub(std::hash::RandomState::new, fixed_rs)]
         pub fn $name() {
-            let (buf, bounds) = any_text::<{ $npre }, { $n }, { $b }, { $na }>($pre, $w, $alpha);
+            let (buf, bounds) = any_text_mb::<{ $npre }, { $n }, { $b }, { $na }>($pre, $w, $alpha, $mb);
             let s = unsafe { std::str::from_utf8_unchecked(&buf[..]) };
             let i = if $fixed_start {
                 0
@@ -279,20 +300,22 @@ c10_ws!(c10_ws_block4, [b'/', b'*'], 2, [1, 1, 1, 1], 4, 6, WS_A, 5, true, 8, fa
 c10_ws!(c10_ws_f5, [], 0, [1, 1, 1, 1, 1], 5, 5, WS_A, 5, false, 7, false);
 c10_ws!(c10_ws_witness, [b'/', b'*'], 2, [1, 1], 2, 4, WS_A, 5, true, 6, true);
 
-c12_scan!(c12_string_q3, parse_string_off, [b'\''], 1, [1, 1, 1], 3, 4, STR_A, 5, true, 6);
-c12_scan!(c12_string_f3, parse_string_off, [], 0, [1, 1, 1], 3, 3, STR_A, 5, false, 5);
-c12_scan!(c12_string_mb, parse_string_off, [b'"'], 1, [1, 2, 1], 3, 5, STR_A, 5, true, 7);
-c12_scan!(c12_string_q4, parse_string_off, [b'\''], 1, [1, 1, 1, 1], 4, 5, STR_A, 5, true, 7);
-c12_scan!(c12_action_b3, yp::parse_action, [b'{'], 1, [1, 1, 1], 3, 4, ACT_A, 4, true, 6);
-c12_scan!(c12_action_mb, yp::parse_action, [b'{'], 1, [1, 3, 1], 3, 6, ACT_A, 4, true, 8);
-c12_scan!(c12_action_b4, yp::parse_action, [b'{'], 1, [1, 1, 1, 1], 4, 5, ACT_A, 4, true, 7);
-c12_scan!(c12_eol_f3, yp::parse_to_eol, [], 0, [1, 2, 1], 3, 4, EOL_A, 3, false, 6);
-c12_scan!(c12_eol_f4, yp::parse_to_eol, [], 0, [1, 1, 1, 1], 4, 4, EOL_A, 3, false, 6);
-c12_scan!(c12_colon_f3, yp::parse_to_single_colon, [], 0, [1, 1, 1], 3, 3, COL_A, 4, false, 5);
-c12_scan!(c12_colon_mb, yp::parse_to_single_colon, [], 0, [1, 2, 1, 1], 4, 5, COL_A, 4, false, 7);
-c12_scan!(c12_colon_f4, yp::parse_to_single_colon, [], 0, [1, 1, 1, 1], 4, 4, COL_A, 4, false, 6);
-c12_scan!(c12_int_f3, parse_int_off, [], 0, [1, 1, 1], 3, 3, INT_A, 4, false, 5);
-c12_scan!(c12_int_mb, parse_int_off, [], 0, [1, 1, 2], 3, 4, INT_A, 4, false, 6);
+c12_scan!(c12_string_q3, parse_string_off, [b'\''], 1, [1, 1, 1], 3, 4, STR_A, 5, MB_PLAIN, true, 6);
+c12_scan!(c12_string_f3, parse_string_off, [], 0, [1, 1, 1], 3, 3, STR_A, 5, MB_PLAIN, false, 5);
+c12_scan!(c12_string_mb, parse_string_off, [b'"'], 1, [1, 2, 1], 3, 5, STR_A, 5, MB_PLAIN, true, 7);
+c12_scan!(c12_string_q4, parse_string_off, [b'\''], 1, [1, 1, 1, 1], 4, 5, STR_A, 5, MB_PLAIN, true, 7);
+c12_scan!(c12_action_b3, yp::parse_action, [b'{'], 1, [1, 1, 1], 3, 4, ACT_A, 4, MB_PLAIN, true, 6);
+c12_scan!(c12_action_mb, yp::parse_action, [b'{'], 1, [1, 3, 1], 3, 6, ACT_A, 4, MB_PLAIN, true, 8);
+c12_scan!(c12_action_b4, yp::parse_action, [b'{'], 1, [1, 1, 1, 1], 4, 5, ACT_A, 4, MB_PLAIN, true, 7);
+c12_scan!(c12_eol_f3, yp::parse_to_eol, [], 0, [1, 2, 1], 3, 4, EOL_A, 3, MB_LINE, false, 6);
+c12_scan!(c12_eol_mb3, yp::parse_to_eol, [], 0, [1, 3, 1], 3, 5, EOL_A, 3, MB_LINE, false, 7);
+c12_scan!(c12_eol_f4, yp::parse_to_eol, [], 0, [1, 1, 1, 1], 4, 4, EOL_A, 3, MB_LINE, false, 6);
+c12_scan!(c12_colon_f3, yp::parse_to_single_colon, [], 0, [1, 1, 1], 3, 3, COL_A, 4, MB_COLON, false, 5);
+c12_scan!(c12_colon_mb, yp::parse_to_single_colon, [], 0, [1, 3, 1], 3, 5, COL_A, 4, MB_COLON, false, 7);
+c12_scan!(c12_colon_f4, yp::parse_to_single_colon, [], 0, [1, 1, 1, 1], 4, 4, COL_A, 4, MB_COLON, false, 6);
+c12_scan!(c12_int_f3, parse_int_off, [], 0, [1, 1, 1], 3, 3, INT_A, 4, MB_DIGIT, false, 5);
+c12_scan!(c12_int_mb, parse_int_off, [], 0, [1, 1, 2], 3, 4, INT_A, 4, MB_DIGIT, false, 6);
+c12_scan!(c12_int_mb3, parse_int_off, [], 0, [1, 3, 1], 3, 5, INT_A, 4, MB_DIGIT, false, 7);
 
 /// parse_int::<usize> on 20 / 21 symbolic digits: a value past usize::MAX is an error, never a
 /// panic or a wrapped number.
